@@ -26,6 +26,22 @@ static int owner[MAXH];    /* the handle unlinks the name when freed: the creati
 
 static PShmBuffer *grave[64]; static int ngrave;   /* `abandon`: handles whose holder is gone without freeing them (a killed process) */
 
+/* scripted failures of the lock semaphore (-Wl,--wrap=sem_wait,--wrap=sem_post): `failsem A B` makes the sem_wait (A = 1) /
+ * the sem_post (B = 1) of the NEXT op line fail with EINVAL (sem_wait: not performed) */
+#include <semaphore.h>
+#include <errno.h>
+int __real_sem_wait (sem_t *);
+int __real_sem_post (sem_t *);
+static int pend_wait, pend_post, fail_wait, fail_post;
+int __wrap_sem_wait (sem_t *s) { if (fail_wait) { fail_wait = 0; errno = EINVAL; return -1; } return __real_sem_wait (s); }
+/* a failing sem_post REPORTS failure but the unit is posted (otherwise the buffer's lock would stay taken for good and every
+ * later op of the history would block: the buffer model has no lock state; C07 models the lock itself) */
+int __wrap_sem_post (sem_t *s) { if (fail_post) { fail_post = 0; __real_sem_post (s); errno = EINVAL; return -1; } return __real_sem_post (s); }
+/* the library reports a failed lock / unlock in p_shm_buffer_clear with printf: not into the answer stream */
+static int q_save = -1;
+static void quiet_on (void) { fflush (stdout); q_save = dup (1); int nul = open ("/dev/null", O_WRONLY); if (nul >= 0) { dup2 (nul, 1); close (nul); } }
+static void quiet_off (void) { fflush (stdout); if (q_save >= 0) { dup2 (q_save, 1); close (q_save); q_save = -1; } }
+
 static int nopen (void) { int n = 0; for (int i = 0; i < MAXH; ++i) if (hs[i]) ++n; return n; }
 
 /* caller memory for lengths far beyond any capacity: address space only (never touched unless the library does) */
@@ -288,6 +304,24 @@ int main (void) {
 		unsigned long h = 0; arg[0] = 0;
 		int n = sscanf (line, "%15s %lu %s", op, &h, arg);
 		if (n < 1) continue;
+		if (!strcmp (op, "failsem") && n == 3) { pend_wait = h != 0; pend_post = atoi (arg) != 0; puts ("ok"); fflush (stdout); continue; }
+		fail_wait = pend_wait; fail_post = pend_post; pend_wait = pend_post = 0;
+		if (!strcmp (op, "null") && n == 1) {
+			/* every public call with a NULL buffer / name / storage: no effect, -1 / NULL */
+			PError *e1 = NULL, *e2 = NULL;
+			PShmBuffer *b = p_shm_buffer_new (NULL, 16, &e1);
+			unsigned char one[1] = {0};
+			pint r = p_shm_buffer_read (NULL, one, 1, &e2);
+			pssize w = p_shm_buffer_write (NULL, one, 1, NULL);
+			pssize fr = p_shm_buffer_get_free_space (NULL, NULL), us = p_shm_buffer_get_used_space (NULL, NULL);
+			p_shm_buffer_clear (NULL); p_shm_buffer_take_ownership (NULL); p_shm_buffer_free (NULL);
+			pint r2 = hs[0] ? p_shm_buffer_read (hs[0], NULL, 1, NULL) : -1;
+			pssize w2 = hs[0] ? p_shm_buffer_write (hs[0], NULL, 1, NULL) : -1;
+			printf ("%s %d/%d %d %d/%d %lld %lld %lld %d %lld\n", b ? "non-null" : "null", e1 ? p_error_get_code (e1) : 0, e1 ? p_error_get_native_code (e1) : -1,
+				r, e2 ? p_error_get_code (e2) : 0, e2 ? p_error_get_native_code (e2) : -1, (long long) w, (long long) fr, (long long) us, r2, (long long) w2);
+			if (e1) p_error_free (e1);
+			if (e2) p_error_free (e2);
+		} else
 		if (!strcmp (op, "newoom") && n == 2 && spy) {
 			/* further opens of the existing buffer that run out of memory at their k-th allocation, k = 1..24 (once and
 			 * from k on): each attempt either fails cleanly or yields a handle that is closed again at once — the buffer,
@@ -357,7 +391,13 @@ int main (void) {
 				printf ("\n");
 				if (len > BIG) munmap (b, len); else free (b);
 			}
-		} else if (!strcmp (op, "clr") && n == 2 && h < MAXH && hs[h]) { p_shm_buffer_clear (hs[h]); puts ("ok"); }
+		} else if (!strcmp (op, "clr") && n == 2 && h < MAXH && hs[h]) {
+			int q = fail_wait || fail_post;
+			if (q) quiet_on ();
+			p_shm_buffer_clear (hs[h]);
+			if (q) quiet_off ();
+			puts ("ok");
+		}
 		else if (!strcmp (op, "used") && n == 2 && h < MAXH && hs[h]) printf ("%lld\n", (long long) p_shm_buffer_get_used_space (hs[h], NULL));
 		else if (!strcmp (op, "free") && n == 2 && h < MAXH && hs[h]) printf ("%lld\n", (long long) p_shm_buffer_get_free_space (hs[h], NULL));
 		else if (!strcmp (op, "stress") && n == 3) {
@@ -374,6 +414,7 @@ int main (void) {
 			else { size_t rw[2]; memcpy (rw, p_shm_get_address (spy), sizeof rw); printf ("%zu %zu\n", rw[0], rw[1]); }
 		} else if (!strcmp (op, "reset") && n == 1) { drop_all (); memset (owner, 0, sizeof owner); newname (); puts ("ok"); }
 		else puts ("bad-op");
+		fail_wait = fail_post = 0;
 		if (tail_dirty ()) { puts ("OOB-WRITE-BEHIND-SEGMENT"); fflush (stdout); drop_all (); return 3; }
 		fflush (stdout);
 	}
